@@ -310,10 +310,14 @@ class KMeansMachine(BaseEstimator):
         data = da.array(data)
         data.rechunk(1, data.shape[-1])  # Prevents issue with large arrays.
         logger.debug("Get k-means centroids")
+        init = self.init_method
+        if isinstance(init, np.ndarray):
+            # k_init returns the given array itself: do not share memory with the caller
+            init = init.copy()
         self.centroids_ = k_init(
             X=data,
             n_clusters=self.n_clusters,
-            init=self.init_method,
+            init=init,
             random_state=self.random_state,
             max_iter=self.init_max_iter,
             oversampling_factor=self.oversampling_factor,
